@@ -21,6 +21,8 @@ Implementation: Dataclass with sensible defaults and config loading from diction
 from dataclasses import dataclass, field
 from typing import Any
 
+from src.core.linter_utils import require_number
+
 # Default threshold for minimum continue guards to flag
 DEFAULT_MIN_CONTINUES = 1
 
@@ -49,6 +51,7 @@ class CollectionPipelineConfig:
 
     def __post_init__(self) -> None:
         """Validate configuration values."""
+        require_number("min_continues", self.min_continues)
         if self.min_continues < 1:
             raise ValueError(f"min_continues must be at least 1, got {self.min_continues}")
 
